@@ -395,8 +395,12 @@ def sl_ref_lines(seq):
     a, b, out = [], [], []
     for op in seq:
         n = op[-1]
-        if n in a: a.remove(n)
-        if n in b: b.remove(n)
+        if op[0] == "c":
+            if n == 1: b = []
+            else: a = []
+        else:
+            if n in a: a.remove(n)
+            if n in b: b.remove(n)
         if op[0] == "a":
             (b if op[1] == 1 else a).append(n)
         u = [x for x in range(2, SL_NN + 2) if x not in a and x not in b]
@@ -406,11 +410,11 @@ def sl_ref_lines(seq):
 
 
 def sl_line(op):
-    return "a %d %d" % (op[1], op[2]) if op[0] == "a" else "r %d" % op[1]
+    return "a %d %d" % (op[1], op[2]) if op[0] == "a" else "%s %d" % (op[0], op[1])
 
 
 def sl_exhaustive(depth, nodes):
-    ops = [("a", l, n) for l in (0, 1) for n in nodes] + [("r", n) for n in nodes]
+    ops = [("a", l, n) for l in (0, 1) for n in nodes] + [("r", n) for n in nodes] + [("c", 0), ("c", 1)]
     res = [[]]
     allh = []
     for _ in range(depth):
@@ -432,7 +436,8 @@ def state_lists(ctx, b):
         h = []
         for _ in range(ctx.rng.randint(1, rl)):
             n = ctx.rng.randint(2, SL_NN + 1)
-            h.append(("r", n) if ctx.rng.random() < 0.3 else ("a", ctx.rng.randint(0, 1), n))
+            u = ctx.rng.random()
+            h.append(("c", ctx.rng.randint(0, 1)) if u < 0.06 else ("r", n) if u < 0.33 else ("a", ctx.rng.randint(0, 1), n))
         hist.append(h)
     lines = []
     for h in hist:
@@ -460,7 +465,7 @@ def state_lists(ctx, b):
         ctx.count(1, key=("state-lists", tuple(h)))
     ctx.cov["correspondence"]["state-lists"] = {"histories": len(hist), "ops": len(lines) - len(hist), "problems": 0 if bad is None else 1,
                                                 "wall_s": round(time.time() - t, 1),
-                                                "rule": "every history of <= %d ops over {Append to A, Append to B, Remove} x 3 nodes, plus %d random histories of up to %d ops over %d nodes; after every op the forward and backward traversal of both lists and the set of unlinked nodes, compared three ways (real MgrNodeList/MgrNode, Lean model, plain-list reference)" % (4 if quick else 5, nr, rl, SL_NN)}
+                                                "rule": "every history of <= %d ops over {Append to A, Append to B, Remove} x 3 nodes + ClearEntries of A or B, plus %d random histories of up to %d ops over %d nodes; after every op the forward and backward traversal of both lists and the set of unlinked nodes, compared three ways (real MgrNodeList/MgrNode, Lean model, plain-list reference)" % (4 if quick else 5, nr, rl, SL_NN)}
     if bad:
         pre, who, want, rk, mk = bad
         ctx.broken.append(("correspondence GenNodeList model vs src/clutils/gennodelist.cc, include/clutils/gennode.h, src/clstepcore/mgrnodelist.cc",
